@@ -84,6 +84,7 @@ package handlers
 //@   requires pr != nil
 //@   modifies gvar decisionCount, gvar lastDecision, gvar lastModelEndpoints, gvar lastModelErr, pr.profile, domain.RequestProfile.RoutingDecision, domain.Endpoint.Status, domain.Endpoint.Name, domain.Endpoint.URLString, domain.Endpoint.Priority, domain.Endpoint.Type, domain.Endpoint.NextCheckTime, domain.Endpoint.LastChecked, domain.Endpoint.ConsecutiveFailures, domain.Endpoint.BackoffMultiplier, domain.Endpoint.LastLatency
 //@   ensures decisionCount == old(decisionCount) || decisionCount == old(decisionCount) + 1
+//@   ensures err != nil ==> decisionCount == old(decisionCount)
 //@   ensures err == nil ==> allNonNil(res)
 //@   ensures err == nil && decisionCount == old(decisionCount) + 1 && lastDecision != nil ==> pr.profile != nil && pr.profile.RoutingDecision == lastDecision
 //@   ensures err == nil && decisionCount == old(decisionCount) + 1 && lastDecision != nil && lastDecision.Action == "rejected" ==> len(res) == 0
@@ -351,7 +352,8 @@ package handlers
 //@   at return 2 assert ghost(w).started && ghost(w).status == 413 && pxCalls == old(pxCalls)
 //@   at return 3 assert ghost(w).started && ghost(w).status == 400 && pxCalls == old(pxCalls)
 //@   at return 4 assert ghost(w).started && ghost(w).status == 503 && pxCalls == old(pxCalls)
-//@   at return 5 assert ghost(w).started && ghost(w).status == 404 && pxCalls == old(pxCalls)
+//@   at return 5 assert ghost(w).started && pxCalls == old(pxCalls) && ghost(w).status >= 400
+//@   at return 5 assert decisionCount == old(decisionCount) + 1 && lastDecision != nil && lastDecision.Action == "rejected" && lastDecision.StatusCode >= 400 ==> ghost(w).status == lastDecision.StatusCode
 //@   at return 7 assert ghost(w).started && ghost(w).status == 400 && pxCalls == old(pxCalls)
 
 // ---- C05: the generic proxy route. Failing before a backend was tried is answered 502 with an error body and the
@@ -378,12 +380,29 @@ package handlers
 //@   modifies gvar pxCalls, gvar pxEndpoints, gvar pxPath, gvar pxBody, object w, object pr.stats, ghost(w).started, ghost(w).status, ghost(w).hdr[all], ghost remaining, ghost backing, ports.RequestStats.RoutingDecision
 //@   ensures pxCalls == old(pxCalls) + 1 && pxEndpoints == endpoints && pxPath == old(r.URL.Path)
 
+// ---- C09: a request that model routing rejected is answered with the decision's status, not proxied
+//@ func routingRejection
+//@   property C09 C05
+//@   safety
+//@   requires pr != nil
+//@   ensures res != nil <==> (len(endpoints) == 0 && pr.profile != nil && pr.profile.RoutingDecision != nil && pr.profile.RoutingDecision.Action == "rejected" && pr.profile.RoutingDecision.StatusCode >= 400)
+//@   ensures res != nil ==> res == pr.profile.RoutingDecision
+
+//@ func (a *Application) handleRoutingRejection
+//@   property C09 C05
+//@   safety
+//@   requires a != nil && w != nil && pr != nil && pr.requestLogger != nil && decision != nil
+//@   modifies ghost(w).started, ghost(w).status, ghost(w).hdr[all]
+//@   ensures ghost(w).started && (!old(ghost(w).started) ==> ghost(w).status == decision.StatusCode)
+
 //@ func (a *Application) proxyHandler
-//@   property C05
+//@   property C05 C09
+//@   replay handlers_proxy_rejected_status
 //@   safety
 //@   requires a != nil && a.proxyService != nil && a.logger != nil && w != nil && r != nil && r.URL != nil
 //@   requires !ghost(w).started && len(ghost(w).hdr["Content-Type"]) == 0 && allocated(ghost(w).hdr)
 //@   modifies *
 //@   at return 1 assert ghost(w).started && ghost(w).status == 502 && pxCalls == old(pxCalls)
-//@   ensures pxCalls == old(pxCalls) ==> ghost(w).started && ghost(w).status == 502
+//@   ensures pxCalls == old(pxCalls) ==> ghost(w).started
 //@   ensures pxCalls == old(pxCalls) || pxCalls == old(pxCalls) + 1
+//@   ensures decisionCount == old(decisionCount) + 1 && lastDecision != nil && lastDecision.Action == "rejected" && lastDecision.StatusCode >= 400 ==> pxCalls == old(pxCalls) && ghost(w).started && ghost(w).status == lastDecision.StatusCode
